@@ -232,7 +232,7 @@ def apalache_inductive(module, init="Init", ind="IndInv", safety=None, timeout=9
     for q_init, q_inv, length, expect_ok in queries:
         p = subprocess.run(["apalache-mc", "check", "--init=" + q_init, "--inv=" + q_inv, "--length=%d" % length,
                             "--out-dir=" + out, src], stdout=subprocess.PIPE, stderr=subprocess.STDOUT, text=True,
-                           timeout=timeout, cwd=out)
+                           timeout=timeout, cwd=out, env=dict(os.environ, TMPDIR=out))
         ok = "The outcome is: NoError" in p.stdout
         if ok != expect_ok:
             raise MachineryError("apalache %s: --init=%s --inv=%s --length=%d gave %s\n%s"
@@ -249,7 +249,7 @@ def tlaps(module, timeout=900):
     out = workdir("tlaps_" + module)
     shutil.copy(os.path.join(SPEC, module + ".tla"), out)
     p = subprocess.run(["tlapm", module + ".tla"], stdout=subprocess.PIPE, stderr=subprocess.STDOUT, text=True,
-                       timeout=timeout, cwd=out)
+                       timeout=timeout, cwd=out, env=dict(os.environ, TMPDIR=out))
     m = re.search(r"All (\d+) obligations? proved", p.stdout)
     if p.returncode != 0 or not m:
         raise MachineryError("tlapm %s failed:\n%s" % (module, p.stdout[-2000:]))
